@@ -91,13 +91,29 @@ def coq_files():
     return fs
 
 
-def forbidden_scan():
-    """No Admitted/admit/Axiom/Parameter/... anywhere in the development."""
+def coq_closure(prop_ids):
+    """The .v files the property's theorem files depend on (transitively), plus its Corr files."""
+    roots = ["Props/%s.v" % i for i in prop_ids if os.path.exists(os.path.join(COQ, "Props/%s.v" % i))]
+    for i in prop_ids:
+        roots += [os.path.relpath(p, COQ) for p in glob.glob(os.path.join(COQ, "Corr", i.split("_")[0] + "*_corr.v"))]
+    if not roots:
+        return None
+    rc, out, _ = run(["coqdep", "-Q", ".", "FunV", "-sort"] + roots, cwd=COQ, timeout=120)
+    files = [f for f in out.split() if f.endswith(".v")]
+    return set(os.path.normpath(os.path.join(COQ, f)) for f in files) if files else None
+
+
+def forbidden_scan(only=None):
+    """No Admitted/admit/Axiom/Parameter/... in the development (restricted to `only` if given:
+    the dependency closure of the property being checked, so that one property's unfinished file
+    cannot fail another property's check)."""
     bad = []
     pat = re.compile(r"^\s*(Admitted|Axiom|Axioms|Parameter|Parameters|Conjecture|Admit Obligations|Unset Guard Checking|"
                      r"Unset Positivity Checking|Unset Universe Checking)\b|\badmit\b|bypass_check|\bgive_up\b|-type-in-type")
     for path in glob.glob(os.path.join(COQ, "**", "*.v"), recursive=True):
-        if "/cases/" in path:
+        if "/cases/" in path or "/Gen/expected/" in path:
+            continue
+        if only is not None and os.path.normpath(path) not in only:
             continue
         in_comment = 0
         with open(path, errors="replace") as f:
